@@ -6,6 +6,7 @@ package simos
 import (
 	"io/fs"
 	"os"
+	"sort"
 	"time"
 
 	"verifsim/sim/simrt"
@@ -58,6 +59,20 @@ func disk() *FS {
 		}
 	}
 	return nil
+}
+
+// Names lists the paths that exist on the simulated disk, sorted (ok=false: no simulated disk).
+func Names() ([]string, bool) {
+	d := disk()
+	if d == nil {
+		return nil, false
+	}
+	names := make([]string, 0, len(d.dir))
+	for n := range d.dir {
+		names = append(names, n)
+	}
+	sort.Strings(names)
+	return names, true
 }
 
 // File is os.File over either the real or the simulated file system.
